@@ -372,9 +372,12 @@ func normIface(p IfaceV) IfaceV {
 	return p
 }
 
-type unsupportedErr struct{ msg string }
+type unsupportedErr struct {
+	msg     string
+	checked bool
+}
 
-func unsupported(msg string) unsupportedErr { return unsupportedErr{msg} }
+func unsupported(msg string) unsupportedErr { return unsupportedErr{msg: msg} }
 
 func intWidth(t types.Type) (int, bool) {
 	b, ok := t.Underlying().(*types.Basic)
